@@ -14,7 +14,7 @@ solutions = {
     'dc': ds.real_solution,
     'real': ds.real_solution,
     'complex': ds.complex_solution,
-    'single_frequency_time_domain': ds.single_frequency_complex_solution
+    'single_frequency_time_domain': ds.single_frequency_time_domain_steady_state_solution
 }
 
 @dataclass
